@@ -19,6 +19,7 @@ import MW.Lemmas.PendHistRun
 import MW.Lemmas.PendHistObs
 import MW.Lemmas.PendHistEx
 import MW.Lemmas.PendHistCredRun
+import MW.Lemmas.TxmgrCodecRec
 namespace MW.Props.C09
 open MW MW.Model.Ledger MW.Lemmas.LedgerPending
 
@@ -552,5 +553,31 @@ def C09_full_credit_relation : Prop :=
 def C09_full_history_refinement (Domain : List (List String) → Prop)
     (run : List (List String) → Store × List Tx) : Prop :=
   ∀ ops, Domain ops → ∀ id, (AMap.get (run ops).1.pending id).isSome = (run ops).2.any (fun t => t.id = id)
+
+-- ------------------------------------------------------------------ byte level (Round 4): the pending record
+section Codec
+open MW.Model.TxmgrCodec MW.TxmgrCodec MW.Gen.Codec
+
+/-- UNCONFIRM READABLE at byte level.  The value Rollback (and insertMemPoolTx) store under the transaction hash is
+    `valueUnmined` = received time ‖ MsgTx.Bytes(wire.DB) (layout regenerated from txstore_db.go: MW.Gen.Codec.wValueUnmined /
+    rRawUnmined; that both sides use wire.DB and that Rollback writes through valueUnmined + putRawUnmined with
+    `rec.Received = rbBlock.Timestamp` are regenerated facts codec.pendingRecordMode / codec.pendingRecordWriters).
+    For EVERY serialized transaction `ser` and EVERY received time `t` (int64 seconds) `readRawUnmined` splits it into exactly
+    `t` and exactly `ser`, which it hands to MsgTx.SetBytes(…, wire.DB).  (That SetBytes inverts Bytes is mass-core's
+    law — a parameter, sampled by the differential `pend` op on generated transactions.) -/
+theorem codec_unconfirm_readable (ser : Bytes) (t : Int) (h1 : -(2 ^ 63 : Int) ≤ t) (h2 : t < 2 ^ 63) :
+    readRawUnmined (valueUnmined ser t) = some (t, ser) := readRawUnmined_valueUnmined ser t h1 h2
+
+/-- a negative and a maximal received time meet the hypotheses -/
+example : readRawUnmined (valueUnmined [8, 1, 0x12] (-1)) = some (-1, [8, 1, 0x12]) ∧
+    readRawUnmined (valueUnmined [] (2 ^ 63 - 1)) = some (2 ^ 63 - 1, []) := by decide
+
+/-- pending credits / spender index (buckets `mc`, `mi`): the key is the canonical outpoint -/
+theorem codec_outpoint_key_roundtrip (o : OutPointB) (h : o.WF = true) :
+    readUnminedCreditKey (canonicalOutPoint o) = some o := readUnminedCreditKey_canonicalOutPoint o h
+theorem codec_outpoint_key_inj (o o' : OutPointB) (h : o.WF = true) (h' : o'.WF = true)
+    (he : canonicalOutPoint o = canonicalOutPoint o') : o = o' := canonicalOutPoint_inj o o' h h' he
+example : (⟨List.replicate 32 0xff, 2 ^ 32 - 1⟩ : OutPointB).WF = true := by decide
+end Codec
 
 end MW.Props.C09
